@@ -3,7 +3,7 @@
    driver side: Model/Response.v (decode_message, to_exception), tied to cassandra/protocol.py by correspondence
                 (checks/C04.py: every generated case is decoded by the real _ProtocolHandler.decode_message and by this model). *)
 From Coq Require Import ZArith List Bool String Ascii.
-From Verif Require Import Response ResponseSpec C04_proofs C04_frame_proofs.
+From Verif Require Import Response ResponseSpec C04_proofs C04_frame_proofs C04_gap_proofs.
 Import ListNotations.
 Local Open Scope Z_scope.
 
@@ -65,6 +65,19 @@ Theorem C04_partial : forall pv rm stream r,
   decode_message pv rm stream (spec_flags r) (spec_opcode r) (spec_body pv r) = Some (exact pv rm stream r).
 Proof. intros pv rm stream r W G. apply decode_exact. unfold wf_response. rewrite W, G. reflexivity. Qed.
 Print Assumptions C04_partial.
+
+(* the hypothesis of C04_partial excludes exactly the failing class: a spec-well-formed response decodes to its exact
+   contents if and only if it is outside driver_gap *)
+Theorem C04_gap_exact : forall pv rm stream r,
+  wf_spec pv rm r = true ->
+  (decode_message pv rm stream (spec_flags r) (spec_opcode r) (spec_body pv r) = Some (exact pv rm stream r)
+   <-> driver_gap r = false).
+Proof.
+  intros pv rm stream r W. split.
+  - intros D. destruct (driver_gap r) eqn:G; [|reflexivity]. exfalso. exact (gap_fails pv rm stream r W G D).
+  - intros G. apply C04_partial; assumption.
+Qed.
+Print Assumptions C04_gap_exact.
 
 (* server errors surface as the documented exception types with their fields intact *)
 Theorem C04_exceptions : forall pv rm stream r e m,
